@@ -134,6 +134,32 @@ Proof.
   destruct Hc as [Hc|Hc]; rewrite Hc; [left|right]; reflexivity.
 Qed.
 
+(* ... in particular a number that is NaN, infinite or beyond the range of the integer parameter it
+   is given to (the arguments before it converting): Err at the entry, the function is not called *)
+Lemma call_num_out_of_range : forall hosts off f args sp st fv st1 vs st2 sg i k d,
+  eval hosts off f st = (Ok fv, st1) ->
+  eval_list hosts off args st1 = (Ok vs, st2) ->
+  callee_sig hosts fv = Some sg ->
+  nth_error (expanded_args vs sp) i = Some (VNum d) ->
+  arg_type (sig_params sg) (sig_variadic sg) i = Some (TInt k) ->
+  is_finite d = false \/ wrap_int k (trunc_dec d) <> trunc_dec d ->
+  (forall j b, (j < i)%nat -> nth_error (expanded_args vs sp) j = Some b ->
+     exists tj c, arg_type (sig_params sg) (sig_variadic sg) j = Some tj /\ conv_to tj b = Ok c) ->
+  call_value hosts off fv vs sp st2 = (Err, st2) /\
+  fst (resolve_entry hosts off (SCall f args sp) st) = Err.
+Proof.
+  intros hosts off f args sp st fv st1 vs st2 sg i k d Hf Ha Hsg Hi Ht Hr Hb.
+  pose proof (num_out_of_range_not_called hosts off fv sg vs sp st2 i k d Hsg Hi Ht Hr Hb) as Hc.
+  split; [exact Hc|].
+  apply (call_misuse_lift hosts off f args sp st fv st1 vs st2 Hf Ha). left. rewrite Hc. reflexivity.
+Qed.
+
+(* left("abc", 1e30): the count does not fit int - Err, and no longer outside the model *)
+Example ex_left_out_of_range :
+  let e := SCall (SIdent KIdent (str "left")) [SLit KString (str "abc"); SLit KNumber (str "1e30")] false in
+  eval [] 0 e (mkR None []) = (Err, mkR None []) /\ fst (resolve_entry [] 0 e (mkR None [])) = Err.
+Proof. split; vm_compute; reflexivity. Qed.
+
 Example ex_unconvertible_str_for_int :
   conv_args [TInt GInt] false [VStr (str "x")] = Err /\ conv_args [TDec] false [VBool true] = Err /\
   conv_args [TSlice TString] false [VNull] = Panic.
@@ -697,7 +723,7 @@ Proof.
   intros name v. unfold iface_builtin.
   destruct (name_is name "finite"); [discriminate|].
   destruct (name_is name "toString"); [destruct (conv_to_string v); discriminate|].
-  destruct (name_is name "toInt"); [destruct (to_i64_opt (conv_to_number v)); discriminate|].
+  destruct (name_is name "toInt"); [discriminate|].
   destruct (name_is name "toFloat"); discriminate.
 Qed.
 
@@ -787,41 +813,27 @@ Qed.
 Lemma is_null_dec : forall v : value, v = VNull \/ v <> VNull.
 Proof. intros v. destruct v; try (right; discriminate). left. reflexivity. Qed.
 
-(* the element loops: the first element that is not converted to a non-nil value decides *)
+(* the element loops: the first element whose own conversion panics decides (an element converted
+   to nil is kept, it is no longer a panic) *)
 Lemma conv_slice_elems_panic_iff : forall et l,
   conv_slice_elems et l = Panic <->
   exists l1 x l2, l = l1 ++ x :: l2 /\ (exists l1', conv_slice_elems et l1 = Ok l1') /\
-                  (conv_to et x = Panic \/ (et = TIface /\ x = VNull)).
+                  conv_to et x = Panic.
 Proof.
   intros et l. split.
   - induction l as [|x r IH]; intros H; [discriminate H|].
     rewrite conv_slice_elems_cons in H.
     destruct (conv_to et x) as [x'| | |] eqn:Ex; try discriminate H.
-    + destruct (conv_slice_elems et r) as [r'| | |] eqn:Er.
-      * destruct x'; try discriminate H.
-        exists [], x, r. split; [reflexivity|]. split; [exists []; reflexivity|].
-        right. apply conv_to_ok_null_iff. exact Ex.
-      * destruct x'; try discriminate H.
-        exists [], x, r. split; [reflexivity|]. split; [exists []; reflexivity|].
-        right. apply conv_to_ok_null_iff. exact Ex.
-      * destruct (is_null_dec x') as [Hn|Hn].
-        { subst x'. exists [], x, r. split; [reflexivity|]. split; [exists []; reflexivity|].
-          right. apply conv_to_ok_null_iff. exact Ex. }
-        destruct (IH eq_refl) as (l1 & y & l2 & Hl & [l1' Hl1] & Hy).
-        exists (x :: l1), y, l2. split; [rewrite Hl; reflexivity|]. split; [|exact Hy].
-        exists (x' :: l1'). rewrite conv_slice_elems_cons, Ex, Hl1. destruct x'; try reflexivity.
-        exfalso. apply Hn. reflexivity.
-      * destruct x'; try discriminate H.
-        exists [], x, r. split; [reflexivity|]. split; [exists []; reflexivity|].
-        right. apply conv_to_ok_null_iff. exact Ex.
-    + exists [], x, r. split; [reflexivity|]. split; [exists []; reflexivity|]. left. exact Ex.
+    + destruct (conv_slice_elems et r) as [r'| | |] eqn:Er; try discriminate H.
+      destruct (IH eq_refl) as (l1 & y & l2 & Hl & [l1' Hl1] & Hy).
+      exists (x :: l1), y, l2. split; [rewrite Hl; reflexivity|]. split; [|exact Hy].
+      exists (x' :: l1'). rewrite conv_slice_elems_cons, Ex, Hl1. reflexivity.
+    + exists [], x, r. split; [reflexivity|]. split; [exists []; reflexivity|]. exact Ex.
   - intros (l1 & x & l2 & Hl & [l1' Hl1] & Hx). subst l. revert l1' Hl1.
     induction l1 as [|y l1 IH]; intros l1' Hl1.
-    + cbn [app]. rewrite conv_slice_elems_cons. destruct Hx as [Hx|[He Hx]].
-      * rewrite Hx. reflexivity.
-      * subst et x. reflexivity.
+    + cbn [app]. rewrite conv_slice_elems_cons, Hx. reflexivity.
     + cbn [app]. rewrite conv_slice_elems_cons. rewrite conv_slice_elems_cons in Hl1.
       destruct (conv_to et y) as [y'| | |]; try discriminate Hl1.
-      destruct (conv_slice_elems et l1) as [r'| | |] eqn:Er; try (destruct y'; discriminate Hl1).
-      rewrite (IH r' eq_refl). destruct y'; try reflexivity.
+      destruct (conv_slice_elems et l1) as [r'| | |] eqn:Er; try discriminate Hl1.
+      rewrite (IH r' eq_refl). reflexivity.
 Qed.
